@@ -141,6 +141,21 @@ def run(res, proof):
         sw = dep.SequenceConstraint(s_wc, molecule=mol)
         both('SequenceConstraint.wc_complement', sw.wc_complement, iu.wc_complement(s_wc, material=mol), {'seq': s_wc, 'mol': mol})
         both('SequenceConstraint.reverse_wc_complement', sw.reverse_wc_complement, iu.reverse_wc_complement(s_wc, material=mol), {'seq': s_wc, 'mol': mol})
+        # the in-place mutator: views read before and after add_constraint() on ONE object
+        s_n = ''.join(rng.choice('N' + wc_ok) for _ in range(rng.randint(1, 20)))
+        narrow = ''.join((rng.choice('ACG' + t) if (c == 'N' and rng.random() < 0.6) else c) for c in s_n)
+        one = dep.SequenceConstraint(s_n, molecule=mol)
+        _ = (one.wc_complement, one.reverse_wc_complement, one.complement, one.reverse_complement)
+        try:
+            one.add_constraint(narrow)
+            cur = one.constraint
+            both('SequenceConstraint.after-add:wc_complement', one.wc_complement, iu.wc_complement(cur, material=mol), {'seq': s_n, 'narrowed': narrow, 'mol': mol})
+            both('SequenceConstraint.after-add:reverse_wc_complement', one.reverse_wc_complement, iu.reverse_wc_complement(cur, material=mol), {'seq': s_n, 'narrowed': narrow, 'mol': mol})
+            both('SequenceConstraint.after-add:complement', one.complement, iu.complement(cur, material=mol), {'seq': s_n, 'narrowed': narrow, 'mol': mol})
+            both('SequenceConstraint.after-add:reverse_complement', one.reverse_complement, iu.reverse_complement(cur, material=mol), {'seq': s_n, 'narrowed': narrow, 'mol': mol})
+            both('SequenceConstraint.after-add:constraint', cur, iu.add_constraints(s_n, narrow, material=mol), {'seq': s_n, 'narrowed': narrow, 'mol': mol})
+        except Exception as e:
+            res.violation('legacy-differs:SequenceConstraint.add_constraint-raises', {'seq': s_n, 'narrowed': narrow}, type(e).__name__, 'the narrowed constraint')
         s2 = ''.join(rng.choice(full) for _ in range(len(s_all)))
         a = outcome(lambda: (dep.SequenceConstraint(s_all, mol) + dep.SequenceConstraint(s2, mol)).constraint)
         b = outcome(lambda: iu.add_constraints(s_all, s2, material=mol))
